@@ -2,6 +2,7 @@
 from .. import common as C
 from .. import gen as G
 from .. import streams as S
+from .. import dstream as D
 
 FIELDS = ["n", "bounds", "disj", "cover", "counts", "congr", "tree", "leaves", "moments", "emptyiff", "us"]
 
@@ -23,6 +24,29 @@ def cases(ctx):
         for _ in range(20):
             out.append(S.enc_case(rng, n=rng.choice([20000, 50000]), level=rng.choice([8, 12]), nchunks=1))
     out += budget_cases(rng, 3 if ctx.quick else 12)
+    out += singles_cases(rng, 40 if ctx.quick else 400)
+    return out
+
+def singles_cases(rng, count):
+    """a handful of distinct values, some repeated hundreds of times, gaps of 1, g, multiples of g or huge, at level 12
+    with GCDs on: every raw range is single-valued, so whether divisors get folded at all is decided by the neighbour scan of
+    use_gcd_prefix_optimize, and the optimiser merges singles into ranges whose divisor must be the exact GCD"""
+    out = []
+    for _ in range(count):
+        dt = rng.choice([d for d in S.ALL_DT if C.DTYPES[d][2] not in ("bool", "float")])
+        m = rng.range(2, 7)
+        g = rng.choice([2, 3, 10, 1000, 4096, 99991])
+        v, vals = rng.choice([0, 7, 1000]), []
+        for _i in range(m):
+            vals.append(v)
+            v += rng.choice([1, 1, g, 2 * g, g * rng.range(1, 50), 1])
+        xs = []
+        for x in vals:
+            xs += [G.from_signed_val(dt, x)] * rng.choice([1, 1, 2, 5, 200])
+        for a in range(len(xs) - 1, 0, -1):
+            b = rng.below(a + 1)
+            xs[a], xs[b] = xs[b], xs[a]
+        out.append({"dt": dt, "level": rng.choice([12, 12, 8, 4]), "order": 0, "gcds": 1, "chunks": [xs], "kinds": ["singles"], "drain": 0})
     return out
 
 def budget_cases(rng, count):
@@ -71,6 +95,21 @@ def run(ctx):
         if r["bytes"] is None or r["model"] is None or not r["model"].startswith("ok "):
             if r["bytes"] is not None:
                 ctx.disagree("enc", line, str(r["model"]), "bytes", "spec decoder rejects the writer's bytes")
+                # the property's first clause with the library's OWN reader: metadata parsed back from the bytes (chunk by
+                # chunk, skipping the bodies) against the metadata Compressor::chunk returned
+                walk = C.harness(["dops %s 100000 W%s H %s M" % (c["dt"], r["bytes"], " ".join(["M", "S"] * len(r["metas"])))])[0]
+                parsed = []
+                for b, _ in D.split_tokens(walk):
+                    if b.startswith("ok meta "):
+                        parsed.append(S.parse_meta(b[len("ok meta "):]))
+                    elif b.startswith("err") or b.startswith("panic"):
+                        break
+                for i, (ret, par) in enumerate(zip(r["metas"], parsed)):
+                    if ret["n"] != par["n"] or ret["body"] != par["body"] or not S.meta_equal_mod_single(ret, par):
+                        ctx.violation("chunk metadata misdescribes the chunk: the metadata returned by Compressor::chunk differs from the "
+                                      "one the library's reader parses back (chunk %d: n %s vs %s, body size %s vs %s)"
+                                      % (i, ret["n"], par["n"], ret["body"], par["body"]), line, "equal metadata", walk[:400])
+                        break
             continue
         bad = []
         unexplained = []
